@@ -129,9 +129,17 @@ impl<M: Math, H: Hamiltonian<M>, C: Collector<M, H::Point>> NutsTree<M, H, C> {
             other = match other.extend(math, rng, hamiltonian, direction, collector, options) {
                 Ok(tree) => tree,
                 Turning(_) => {
+                    #[cfg(nuts_rs_verif)]
+                    crate::verif::emit("nuts", || {
+                        crate::verif::json!({"ev": "sub_rej", "why": "turn", "depth": self.depth})
+                    });
                     return Turning(self);
                 }
                 Diverging(_, info) => {
+                    #[cfg(nuts_rs_verif)]
+                    crate::verif::emit("nuts", || {
+                        crate::verif::json!({"ev": "sub_rej", "why": "div", "depth": self.depth})
+                    });
                     return Diverging(self, info);
                 }
                 Err(error) => {
@@ -147,12 +155,29 @@ impl<M: Math, H: Hamiltonian<M>, C: Collector<M, H::Point>> NutsTree<M, H, C> {
 
         let turning = if options.check_turning {
             let mut turning = hamiltonian.is_turning(math, first, last);
+            #[cfg(nuts_rs_verif)]
+            crate::verif::emit("nuts", || {
+                crate::verif::json!({"ev": "turn", "k": "whole", "i": first.index_in_trajectory(),
+                    "j": last.index_in_trajectory(), "b": turning})
+            });
             if self.depth > 0 {
                 if !turning {
                     turning = hamiltonian.is_turning(math, &self.right, &other.right);
+                    #[cfg(nuts_rs_verif)]
+                    crate::verif::emit("nuts", || {
+                        crate::verif::json!({"ev": "turn", "k": "rr",
+                            "i": self.right.index_in_trajectory(),
+                            "j": other.right.index_in_trajectory(), "b": turning})
+                    });
                 }
                 if !turning {
                     turning = hamiltonian.is_turning(math, &self.left, &other.left);
+                    #[cfg(nuts_rs_verif)]
+                    crate::verif::emit("nuts", || {
+                        crate::verif::json!({"ev": "turn", "k": "ll",
+                            "i": self.left.index_in_trajectory(),
+                            "j": other.left.index_in_trajectory(), "b": turning})
+                    });
                 }
             }
             turning
@@ -178,6 +203,13 @@ impl<M: Math, H: Hamiltonian<M>, C: Collector<M, H::Point>> NutsTree<M, H, C> {
     ) {
         assert!(self.depth == other.depth);
         assert!(self.left.index_in_trajectory() <= self.right.index_in_trajectory());
+        #[cfg(nuts_rs_verif)]
+        let verif_other = (
+            other.draw.index_in_trajectory(),
+            other.log_size,
+            other.left.index_in_trajectory(),
+            other.right.index_in_trajectory(),
+        );
         match direction {
             Direction::Forward => {
                 self.right = other.right;
@@ -187,6 +219,8 @@ impl<M: Math, H: Hamiltonian<M>, C: Collector<M, H::Point>> NutsTree<M, H, C> {
             }
         }
         let log_size = logaddexp(self.log_size, other.log_size);
+        #[cfg(nuts_rs_verif)]
+        let verif_self = (self.draw.index_in_trajectory(), self.log_size);
 
         let self_log_size = if self.is_main {
             assert!(self.left.index_in_trajectory() <= 0);
@@ -202,6 +236,20 @@ impl<M: Math, H: Hamiltonian<M>, C: Collector<M, H::Point>> NutsTree<M, H, C> {
             self.draw = other.draw;
         }
 
+        #[cfg(nuts_rs_verif)]
+        crate::verif::emit("nuts", || {
+            crate::verif::json!({"ev": "merge", "depth": self.depth, "main": self.is_main,
+                "ge": verif_other.1 >= self_log_size,
+                "p": (verif_other.1 - self_log_size).exp(),
+                "ls_self": crate::verif::bits(verif_self.1),
+                "ls_other": crate::verif::bits(verif_other.1),
+                "ls_new": crate::verif::bits(log_size),
+                "other_draw": verif_other.0, "self_draw": verif_self.0,
+                "olo": verif_other.2, "ohi": verif_other.3,
+                "acc": self.draw.index_in_trajectory() == verif_other.0,
+                "draw": self.draw.index_in_trajectory(),
+                "lo": self.left.index_in_trajectory(), "hi": self.right.index_in_trajectory()})
+        });
         self.depth += 1;
         self.log_size = log_size;
     }
@@ -294,6 +342,12 @@ where
 {
     hamiltonian.initialize_trajectory(math, init, true, rng)?;
     collector.register_init(math, init, options);
+    #[cfg(nuts_rs_verif)]
+    let verif_init_hash = if crate::verif::tracing() {
+        crate::verif::hash_f64s(&math.box_array(init.point().position()))
+    } else {
+        String::new()
+    };
 
     let mut tree = NutsTree::new(init.clone());
 
@@ -319,8 +373,37 @@ where
         (options.mindepth, options.maxdepth)
     };
 
+    #[cfg(nuts_rs_verif)]
+    crate::verif::emit("nuts", || {
+        crate::verif::json!({"ev": "traj_init", "mind": mindepth, "maxd": maxdepth,
+            "cfg_mind": options.mindepth, "cfg_maxd": options.maxdepth,
+            "extra": options.extra_doublings, "check": options.check_turning,
+            "tit": options.target_integration_time.is_some(),
+            "dim": math.dim(), "ph": verif_init_hash,
+            "e0": crate::verif::bits(init.point().initial_energy()),
+            "logp": crate::verif::bits(init.point().logp())})
+    });
+    #[cfg(nuts_rs_verif)]
+    macro_rules! verif_ret {
+        ($tree:expr, $info:expr, $why:expr) => {
+            let verif_tree: &NutsTree<M, H, C> = &$tree;
+            crate::verif::emit("nuts", || {
+                let pos = math.box_array(verif_tree.draw.point().position());
+                crate::verif::json!({"ev": "ret", "why": $why,
+                    "idx": verif_tree.draw.index_in_trajectory(), "depth": $info.depth,
+                    "maxd": $info.reached_maxdepth, "div": $info.divergence_info.is_some(),
+                    "lo": verif_tree.left.index_in_trajectory(), "hi": verif_tree.right.index_in_trajectory(),
+                    "ph": crate::verif::hash_f64s(&pos),
+                    "finite": pos.iter().all(|x| x.is_finite()),
+                    "logp": crate::verif::bits(verif_tree.draw.point().logp()),
+                    "energy": crate::verif::bits(verif_tree.draw.point().energy())})
+            });
+        };
+    }
     if math.dim() == 0 {
         let info = tree.info(false, None);
+        #[cfg(nuts_rs_verif)]
+        verif_ret!(tree, info, "dim0");
         collector.register_draw(math, init, &info);
         return Ok((init.clone(), info));
     }
@@ -332,6 +415,12 @@ where
 
     while tree.depth < maxdepth {
         let direction: Direction = rng.random();
+        #[cfg(nuts_rs_verif)]
+        crate::verif::emit("nuts", || {
+            crate::verif::json!({"ev": "dir", "d": match direction {
+                Direction::Forward => "F", Direction::Backward => "B"},
+                "depth": tree.depth, "check": current_options_check(tree.depth, mindepth, options)})
+        });
         let current_options = if tree.depth < mindepth {
             &options_no_check
         } else {
@@ -348,6 +437,10 @@ where
             ExtendResult::Ok(tree) => tree,
             ExtendResult::Turning(mut tree) => {
                 for _ in 0..options.extra_doublings {
+                    #[cfg(nuts_rs_verif)]
+                    crate::verif::emit("nuts", || {
+                        crate::verif::json!({"ev": "extra", "depth": tree.depth})
+                    });
                     tree = match tree.extend(
                         math,
                         rng,
@@ -360,31 +453,52 @@ where
                         ExtendResult::Turning(tree) => tree,
                         ExtendResult::Diverging(tree, info) => {
                             let info = tree.info(false, Some(info));
+                            #[cfg(nuts_rs_verif)]
+                            verif_ret!(tree, info, "extra_div");
                             collector.register_draw(math, &tree.draw, &info);
                             return Ok((tree.draw, info));
                         }
                         ExtendResult::Err(error) => {
+                            #[cfg(nuts_rs_verif)]
+                            crate::verif::emit("nuts", || crate::verif::json!({"ev": "ret_err"}));
                             return Err(error);
                         }
                     }
                 }
                 let info = tree.info(false, None);
+                #[cfg(nuts_rs_verif)]
+                verif_ret!(tree, info, "turn");
                 collector.register_draw(math, &tree.draw, &info);
                 return Ok((tree.draw, info));
             }
             ExtendResult::Diverging(tree, info) => {
                 let info = tree.info(false, Some(info));
+                #[cfg(nuts_rs_verif)]
+                verif_ret!(tree, info, "div");
                 collector.register_draw(math, &tree.draw, &info);
                 return Ok((tree.draw, info));
             }
             ExtendResult::Err(error) => {
+                #[cfg(nuts_rs_verif)]
+                crate::verif::emit("nuts", || crate::verif::json!({"ev": "ret_err"}));
                 return Err(error);
             }
         };
     }
     let info = tree.info(true, None);
+    #[cfg(nuts_rs_verif)]
+    verif_ret!(tree, info, "maxdepth");
     collector.register_draw(math, &tree.draw, &info);
     Ok((tree.draw, info))
+}
+
+#[cfg(nuts_rs_verif)]
+fn current_options_check(depth: u64, mindepth: u64, options: &NutsOptions) -> bool {
+    if depth < mindepth {
+        false
+    } else {
+        options.check_turning
+    }
 }
 
 #[cfg(test)]
